@@ -148,6 +148,37 @@ async fn graph_case(ctx: &mut Ctx<'_>, label: &str, top_to: &[usize], edges: &[(
     ctx.emit(&mut world, &format!("graph-{label}"), &[cyc], true, json!({"top": top_to, "edges": edges})).await;
 }
 
+/// sibling roles of one delegation: the snapshot pins a length for some and none for the others; each role is
+/// bounded by its own entry (or by `max_targets_size`), never by a sibling's
+async fn mixed_pin_case(ctx: &mut Ctx<'_>, cs: bool, pinned_first: bool, small_limit: bool) {
+    let mut world = World::new(ctx.pool, Names::default());
+    let mut msgs = MsgGen(0);
+    let b = base_repo(&mut msgs, cs, false);
+    let drole = |n: usize| ADRole { name: n, ids: vec![DK], thr: 1, patterns: vec!["*".into()], hash_prefixes: vec![] };
+    let mut top = b.top.clone();
+    top.entries = vec![];
+    top.deleg = Some(ADeleg { table: vec![DK], roles: vec![drole(0), drole(1)] });
+    // role 0 is small, role 1 is large (or the other way round)
+    let (e0, e1) = if pinned_first { (1, 8) } else { (8, 1) };
+    let mut roles = Vec::new();
+    for (i, n) in [(0usize, e0), (1usize, e1)] {
+        roles.push((i, ATargets { version: 1, expires: 7 * DAY, entries: entries(n), deleg: None, msg: msgs.next(), sigs: valid_sigs(&[DK]) }));
+    }
+    // the snapshot lists a length for the small role only
+    let unpinned = if pinned_first { "role:1" } else { "role:0" };
+    let asm = assemble_with(&mut world, cs, 1, 1, &top, &roles, Pin { length: true, hash: false }, &std_online(), &mut msgs, &mut |w, _real, m| {
+        if w == unpinned { m.length = None; }
+    });
+    let mut limits = ALimits::default();
+    if small_limit {
+        // the configured limit lies between the two role files: the unpinned large role is then too large, the small one fits
+        let small = file_len(&mut world, &asm.server, |n| matches!(n, AName::Role(r, _) if *r == if pinned_first { 0 } else { 1 }));
+        limits.max_targets_size = small + 40;
+    }
+    let cyc = ACycle { limits, safe: true, now: 0, server: asm.server, shipped: Some(b.root.clone()), reads: vec![] };
+    ctx.emit(&mut world, "siblings-mixed-pin", &[cyc], true, json!({"pinned_first": pinned_first, "small_limit": small_limit})).await;
+}
+
 /// every file exactly at its bound; delegated roles larger than targets.json
 async fn legit_case(ctx: &mut Ctx<'_>, r: &mut Rng, cs: bool, pin: Pin) {
     let mut world = World::new(ctx.pool, Names::default());
@@ -201,6 +232,13 @@ pub async fn generate(ctx: &mut Ctx<'_>, seed: u64, thorough: bool) {
         for m in 0..=4u64 {
             for n in 0..=(m + 3) {
                 chain_case(ctx, n, m, (m + n) % 2 == 0).await;
+            }
+        }
+        for cs in [false, true] {
+            for pinned_first in [true, false] {
+                for small_limit in [false, true] {
+                    mixed_pin_case(ctx, cs, pinned_first, small_limit).await;
+                }
             }
         }
         // a datastore that has recorded a newer root than the one shipped
